@@ -377,6 +377,42 @@ def given_parameters_honoured(ctx, rule='C19-R7'):
         lits = []
         for l in guard_literals(e.guard):
             lits += list(l[1]) if tag(l) == 'or' else [l]
+        # (a) applied only when the key is absent, (b) for the scaling it belongs to, (c) never when un-doing (the
+        # parameters of an existing scaling cannot be derived from the scaled data)
+        KW = ('p', '**kwargs')
+
+        def absent(l, k):
+            if not (tag(l) == 'not' and tag(l[1]) == 'cmp' and l[1][1] == 'in' and l[1][2] == C(k)):
+                return False
+            c = T.peel(l[1][3])
+            if tag(c) == 'mcall' and c[2] == 'keys':
+                c = T.peel(c[1])
+            return T.root(c) == KW
+        keys = ('min_val', 'max_val') if key in ('min_val', 'max_val') else (key,)
+        ctx.check(any(absent(l, k) for l in lits for k in keys), rule, q, e.node, e.loc(),
+                  f"the data-derived default for '{key}' is not conditional on the key being absent ({T.show(e.guard, maxlen=160)}): "
+                  'a parameter given by the caller is overwritten (or a missing one is not derived)',
+                  instance=f"convert_kwargs: default '{key}' under \"key not given\"")
+        want_fct = 'shift-and-scale' if key in ('shift', 'scale') else 'minmax-scale'
+        fct_ok = any(tag(l) == 'cmp' and l[1] == 'eq' and C(want_fct) in (l[2], l[3]) and ('p', 'fct') in (l[2], l[3])
+                     for l in guard_literals(e.guard))
+        ctx.check(fct_ok, rule, q, e.node, e.loc(),
+                  f"the default for '{key}' is not derived under fct == '{want_fct}' ({T.show(e.guard, maxlen=160)})",
+                  instance=f"convert_kwargs: default '{key}' belongs to {want_fct}")
+        mode_lits = [l for l in guard_literals(e.guard) if T.contains(
+            l, lambda x: x == C('mode') or (tag(x) in ('col', 'sub') and x[2] in ('mode', C('mode'))))]
+        mode_ok = bool(mode_lits) and all(
+            (tag(l) == 'cmp' and l[1] == 'eq' and C('do') in (l[2], l[3])) or
+            (tag(l) == 'not' and tag(l[1]) == 'cmp' and l[1][1] == 'in' and l[1][2] == C('mode')) or
+            (tag(l) == 'cmp' and l[1] == 'in' and l[2] == C('mode')) or
+            (tag(l) == 'or' and all((tag(x) == 'cmp' and x[1] == 'eq' and C('do') in (x[2], x[3])) or
+                                    (tag(x) == 'not' and tag(x[1]) == 'cmp' and x[1][1] == 'in' and x[1][2] == C('mode'))
+                                    for x in l[1]))
+            for l in mode_lits)
+        ctx.check(mode_ok, rule, q, e.node, e.loc(),
+                  f"the default for '{key}' is derived under {T.show(T.mk_and(mode_lits), maxlen=120) if mode_lits else 'no mode test'}: "
+                  "parameters may only be derived from the data when scaling ('do', or no mode given), never when un-doing",
+                  instance=f"convert_kwargs: default '{key}' only in mode 'do'")
         bad = [l for l in lits if value_test(l)]
         ctx.check(not bad, rule, q, e.node, e.loc(),
                   f"the data-derived default for '{key}' is applied under {T.show(bad[0], maxlen=100) if bad else ''}: a truth "
